@@ -84,6 +84,42 @@ def install_reach_monitor(src_dir):
     _REACH_ON[0] = True
 
 
+class _FormatAndDrop:
+    """logging handler: formats every record (so that a broken format string or a
+    failing __repr__ shows) and drops the text."""
+
+    level = 0
+
+    def __init__(self):
+        import logging
+
+        class H(logging.Handler):
+            def emit(self, record):
+                self.format(record)
+
+        self.handler = H()
+        self.handler.setFormatter(logging.Formatter("%(name)s %(message)s"))
+
+
+_LOGSTATE = {"handler": None, "on": None}
+
+
+def set_debug_logging(on):
+    import logging
+
+    if _LOGSTATE["handler"] is None:
+        _LOGSTATE["handler"] = _FormatAndDrop().handler
+        for name in ("puresnmp", "puresnmp_plugins", "x690"):
+            lg = logging.getLogger(name)
+            lg.addHandler(_LOGSTATE["handler"])
+            lg.propagate = False
+    if _LOGSTATE["on"] == on:
+        return
+    _LOGSTATE["on"] = on
+    for name in ("puresnmp", "puresnmp_plugins", "x690"):
+        logging.getLogger(name).setLevel(logging.DEBUG if on else logging.WARNING)
+
+
 def load_findings():
     try:
         with open(FINDINGS_FILE) as fh:
@@ -147,8 +183,20 @@ class Run:
 
     # -- accounting -------------------------------------------------------------
 
+    def tick(self):
+        """
+        Alternate the library's log level between the default and DEBUG from one
+        case to the next: DEBUG logging is process-wide state that switches on
+        otherwise dead code (guarded ``LOG.isEnabledFor(DEBUG)`` blocks, message
+        formatting).  The records are formatted and thrown away.
+        """
+        self._ticks = getattr(self, "_ticks", 0) + 1
+        set_debug_logging(self._ticks % 2 == 1)
+        self.mon["cases_run_with_debug_logging" if self._ticks % 2 == 0 else "cases_run_with_default_logging"] += 1
+
     def case(self, fingerprint=None, nontrivial=True, sample=None):
         """Account one executed case."""
+        self.tick()
         self.evaluations += 1
         if nontrivial and fingerprint is not None:
             self.fingerprints.add(
